@@ -63,8 +63,8 @@ fn config_of(spec: &Value, idx: usize) -> Config {
     let threads = u(spec, "threads", 1) as usize;
     Config {
         alpha,
-        key_opts: KeyOpts { reps: b(spec, "reps", false), layout: b(spec, "layout", false) },
-        two_reps: b(spec, "two_reps", b(spec, "reps", false)),
+        key_opts: KeyOpts { reps: b(spec, "reps", false), layout: b(spec, "layout", false), no_free: b(spec, "no_free", false) },
+        rep_mode: u(spec, "rep_mode", if b(spec, "reps", false) { 2 } else { 0 }) as u8,
         retain_all_subsets: b(spec, "retain_all", true),
         threads,
         max_states: u(spec, "max_states", 20_000_000) as usize,
